@@ -613,6 +613,11 @@ def _sg(ck: Checker, prog: Program):
     out_name = hrets[0].value.id if len(hrets) == 1 and isinstance(hrets[0].value, ast.Name) else None
     tgt_txt = f"{out_name}[:, {col}]"
     zero = any(isinstance(b, ast.Assign) and unparse(b.targets[0]) == tgt_txt and unparse(b.value) in ("0", "0.0") for b in edge[0].body)
+    if not zero and out_name is not None:
+        # the output starts as zeros and an incomplete window stores nothing: the column stays 0
+        alloc = [st for st in h.node.body if isinstance(st, ast.Assign) and len(st.targets) == 1 and isinstance(st.targets[0], ast.Name) and st.targets[0].id == out_name]
+        zero = len(alloc) == 1 and isinstance(alloc[0].value, ast.Call) and call_name(alloc[0].value) == "zeros" \
+            and not any(isinstance(b, ast.Assign) and unparse(b.targets[0]) == tgt_txt for b in edge[0].body)
     store = [st for st in lp.body if isinstance(st, ast.Assign) and unparse(st.targets[0]) == tgt_txt]
     val_ok = False
     if len(store) == 1 and acc_name is not None:
